@@ -487,6 +487,29 @@ func (e *shEnv) font(sf *shFont, maxLen int, full bool) {
 				c.Dir = 4
 				e.shape(&c)
 			}
+			// the advance is linear in the size (up to the rounding of every glyph), in every direction - also when the
+			// shaper keeps its harfbuzz.Font from one size to the next (font cache on in this environment)
+			for _, d := range []int{0, 2, 3, 4} {
+				c := base
+				c.Dir = d
+				var ref shaping.Output
+				if !r.Guard("C12", &c, func() { ref = e.shaper.Shape(e.input(&c)) }) {
+					continue
+				}
+				for _, sz := range []int{64 << 6, 4 << 6, 256 << 6} {
+					c.Size = sz
+					var out shaping.Output
+					if !r.Guard("C12", &c, func() { out = e.shaper.Shape(e.input(&c)) }) {
+						continue
+					}
+					r.Eval()
+					want := float64(ref.Advance) * float64(sz) / float64(base.Size)
+					tol := float64(len(out.Glyphs)+len(ref.Glyphs)+1) * (float64(sz)/float64(base.Size) + 1) * 0.6
+					if got := float64(out.Advance); len(out.Glyphs) == len(ref.Glyphs) && (got-want > tol || want-got > tol) {
+						r.Violation("C12:advance-not-linear-in-size", &c, fmt.Sprintf("advance %v at size %v, %v at size %v (direction %d): expected about %.1f", out.Advance, fixed.Int26_6(sz), ref.Advance, fixed.Int26_6(base.Size), d, want/64))
+					}
+				}
+			}
 			return true
 		}
 		// B: every sub-run with its context, LTR and RTL (including empty runs)
@@ -701,6 +724,18 @@ func shThresholdTexts() []shLongText {
 			}
 			out = append(out, shLongText{pk.script, t})
 		}
+		// one very long syllable / cluster: (consonant + virama-like second rune of the pack) x k + consonant + last rune of the
+		// pack, around the 127- and 255-glyph limits of the byte-sized bookkeeping of the syllabic shapers
+		if len(pk.runes) >= 3 {
+			for _, k := range []int{63, 64, 127, 128, 130} {
+				var t []rune
+				for j := 0; j < k; j++ {
+					t = append(t, pk.runes[0], pk.runes[1])
+				}
+				t = append(t, pk.runes[0], pk.runes[len(pk.runes)-1])
+				out = append(out, shLongText{pk.script, t})
+			}
+		}
 	}
 	shThresholdCache = out
 	return out
@@ -742,6 +777,9 @@ func shRun(prop string) func(tier, shard string, r *mc.Reporter) {
 		f := &corpus.Files()[i]
 		k, nu, maxLen, full := shParams(tier, len(f.Data))
 		e := &shEnv{r: r, prop: prop}
+		if prop == "C12" {
+			e.shaper.SetFontCacheSize(4) // geometry must not depend on what the shaper keeps between calls
+		}
 		for _, sf := range loadShFonts(f, k, nu) {
 			if r.Expired() {
 				break
